@@ -156,7 +156,7 @@ fn index_provenance(cx: &mut Ctx, src: &sm::Src) {
     cx.floor(rule, 6);
     let t = sm::tsx(&src.file);
     let checks: [(&str, &str, &str); 6] = [
-        ("string-precision", "lettruncated=self.precision.and_then(|precision|{let(index,_)=s.char_indices().nth(precision)?;Some(TruncatedStr{inner:&s[..index],char_len:precision,})});", "format_string cuts at the byte index of the precision-th character (char_indices().nth) and announces `precision` characters"),
+        ("string-precision", "lettruncated=self.precision.and_then(|precision|{let(index,_)=s.char_indices().nth(precision)?;Some(TruncatedStr{char_len:precision,inner:&s[..index],})});", "format_string cuts at the byte index of the precision-th character (char_indices().nth) and announces `precision` characters"),
         ("no-truncate", "", "no String::truncate with a spec-supplied index"),
         ("separator-split", "letint_end=magnitude_str.find(&['.','e','E','%'][..]).unwrap_or(magnitude_str.len());let(magnitude_int_str,rest)=magnitude_str.split_at(int_end);", "the integer part ends at find(['.','e','E','%']) or len()"),
         ("width-bound", "ifwidth.is_some_and(|width|(i32::MAXasusize)<width){returnErr(FormatSpecError::DecimalDigitsTooMany);}", "FormatSpec::parse rejects widths above i32::MAX (the padding arithmetic is i32)"),
@@ -217,7 +217,7 @@ fn type_tables(cx: &mut Ctx, src: &sm::Src) {
                                 let pat = sm::tsc(&arm.pat);
                                 let body = sm::tsc(sm::unblock(&arm.body));
                                 if let Some(c) = pat.strip_prefix("Some('").and_then(|r| r.strip_suffix("')")) {
-                                    if let Some(v) = body.strip_prefix("(Some(Self::").and_then(|r| r.strip_suffix("),chars.as_str())")) {
+                                    if let Some(v) = body.strip_prefix("(Some(Self::").or_else(|| body.strip_prefix("(Some(FormatType::")).and_then(|r| r.strip_suffix("),chars.as_str())")) {
                                         if let Some(ch) = c.chars().next() {
                                             parse_tab.insert(ch, v.to_string());
                                         }
@@ -270,8 +270,8 @@ fn type_tables(cx: &mut Ctx, src: &sm::Src) {
     // each table is a match whose arm map (pattern -> value, in any order) equals the reference
     let small: [(&str, Vec<(&str, &str)>); 3] = [
         ("align", vec![("'<'", "Some(FormatAlign::Left)"), ("'>'", "Some(FormatAlign::Right)"), ("'='", "Some(FormatAlign::AfterSign)"), ("'^'", "Some(FormatAlign::Center)"), ("_", "None")]),
-        ("sign", vec![("Some('-')", "(Some(Self::Minus),chars.as_str())"), ("Some('+')", "(Some(Self::Plus),chars.as_str())"), ("Some(' ')", "(Some(Self::MinusOrSpace),chars.as_str())"), ("_", "(None,text)")]),
-        ("grouping", vec![("Some('_')", "(Some(Self::Underscore),chars.as_str())"), ("Some(',')", "(Some(Self::Comma),chars.as_str())"), ("_", "(None,text)")]),
+        ("sign", vec![("Some('-')", "(Some(FormatSign::Minus),chars.as_str())"), ("Some('+')", "(Some(FormatSign::Plus),chars.as_str())"), ("Some(' ')", "(Some(FormatSign::MinusOrSpace),chars.as_str())"), ("_", "(None,text)")]),
+        ("grouping", vec![("Some('_')", "(Some(FormatGrouping::Underscore),chars.as_str())"), ("Some(',')", "(Some(FormatGrouping::Comma),chars.as_str())"), ("_", "(None,text)")]),
     ];
     let mut maps: Vec<std::collections::BTreeMap<String, String>> = vec![];
     {
